@@ -199,13 +199,23 @@ def _subset(rng, names, kmax=None):
 # ------------------------------------------------------------------------------------------------
 
 
-class Reference:
-    """Fresh Problem evaluated once at a point. Never shares the history it is the oracle for."""
+def _ref_compute(spec, tighten, point, need):
+    """Executed in a pristine grandchild (see core.PristineServer)."""
+    r = Reference(spec, tighten, server=None)
+    ent = r.get("p", point, need)
+    return {k: v for k, v in ent.items()}
 
-    def __init__(self, spec, tighten=None):
+
+class Reference:
+    """Fresh Problem evaluated once at a point. Never shares the history it is the oracle for - nor, when a
+    PristineServer is given, the *process* it ran in: class-level and module-level state written by the live history
+    cannot reach the reference."""
+
+    def __init__(self, spec, tighten=None, server=None):
         self.spec = spec
         self.tighten = tighten
         self.cache = {}
+        self.server = server
 
     def _fresh(self, point):
         m = zoo.build(self.spec)
@@ -218,6 +228,11 @@ class Reference:
     def get(self, key, point, need):
         """need in {'out','lin','tot'}; returns dict with outputs / subjacs / totals."""
         ent = self.cache.setdefault(key, {})
+        if self.server is not None:
+            want = "lin" if need in ("out", "lin") else "tot"
+            if want not in ent:
+                ent.update(self.server.call(_ref_compute, self.spec, self.tighten, point, want))
+            return ent
         if need in ("out", "lin") and "lin" not in ent:
             m = self._fresh(point)
             ent["out"] = obs.read_outputs(m.prob)
@@ -296,13 +311,22 @@ def execute(hist, stop_at_first=True, known=None, collect=True):
     def fired(name, n=1):
         res["fault_fired"][name] = res["fault_fired"].get(name, 0) + n
 
+    server = core.PristineServer() if os.environ.get("VERIF_INPROC_REF") != "1" else None  # before anything is built here
+    try:
+        return _execute(hist, stop_at_first, known, collect, spec, points, tighten, log, res, probes, probe, fired, server)
+    finally:
+        if server is not None:
+            server.close()
+
+
+def _execute(hist, stop_at_first, known, collect, spec, points, tighten, log, res, probes, probe, fired, server):
     model = zoo.build(spec)
     _configure(model, tighten)
     prob = model.prob
     coupled = bool(model.coupled)
     rt_out, at_out, rt_jac, at_jac, rt_tot, at_tot = TOL["coupled" if coupled else "plain"]
     margins = {"outputs": {}, "subjac": {}, "totals": {}}
-    ref = Reference(spec, tighten)
+    ref = Reference(spec, tighten, server=server)
     user0 = zoo.user_array_digests(model.user_dicts)
     prob.final_setup()
     initial = obs.read_outputs(prob)
@@ -814,6 +838,7 @@ def replay(path):
 # ------------------------------------------------------------------------------------------------
 
 TASK_TIMEOUT = 300
+RECYCLE_WORKERS = True  # every history starts in a fork of the pristine parent; its references in pristine grandchildren
 
 ASSUMPTIONS = [
     "a freshly built Problem evaluated once (run_model once; run_linearize once / compute_totals once) IS the specification",
@@ -825,7 +850,9 @@ ASSUMPTIONS = [
 
 
 def generate(seed, tier, opts):
-    return gen_history(seed, tier, zoo_filter=opts.get("zoo"), faults_on=opts.get("faults", True))
+    # generation builds a model to read its input specs: do that in a throw-away child so that the process which
+    # executes the history (and forks the pristine reference server) has never built anything
+    return core.in_child(gen_history, seed, tier, opts.get("zoo"), opts.get("faults", True))
 
 
 def compact(case, res):
